@@ -118,7 +118,7 @@ package desync
 
 //@ func (s Store) GetChunk(id) (c, err)
 //@   pure
-//@   ensures err == nil ==> c != nil && (H(plain(c)) == id || s.$skip)
+//@   ensures err == nil ==> c != nil && c.idCalculated && c.id == id && (H(plain(c)) == id || s.$skip)
 
 //@ func (s Store) HasChunk(id) (has, err)
 //@   pure
@@ -130,3 +130,63 @@ package desync
 //@   ensures forall i ChunkID :: old(s.$stored[i]) ==> s.$stored[i]
 //@   ensures err == nil && old(c.idCalculated) ==> s.$stored[old(c.id)]
 //@   ensures err == nil && !old(c.idCalculated) && len(old(c.data)) > 0 ==> s.$stored[H(bytes(old(c.data)))]
+
+// ---------------------------------------------------------------------------- C06 / C07: bulk writers and feeders
+
+//@ ghost var $first bool
+//# $first: the current ChunkStorage.StoreChunk call is the one that marked the ID as processed
+//@ ghost var $fed int
+//# $fed: number of feeder iterations that completed (item handed to a worker or legitimately skipped)
+//@ ghost var $eof bool
+
+//@ guard ChunkStorage: processed by Mutex
+
+//@ func (s *ChunkStorage) markProcessed
+//@   prop C06
+//@   inline
+//@   ensures has(s.processed, id)
+
+//@ func (s *ChunkStorage) unmarkProcessed
+//@   prop C06
+//@   inline
+//@   ensures !has(s.processed, id)
+
+//@ func (s *ChunkStorage) StoreChunk
+//@   prop C06
+//@   requires hasPayload(chunk)
+//@   modifies $first, s.ws.$stored, heap(ChunkStorage.processed), heap(ChunkStorage.Mutex), maps(map[ChunkID]struct{}), chunk.id, chunk.idCalculated, chunk.data
+//@   ghost@after:markProcessed $first = !$r0
+//@   ensures err == nil && $first ==> s.ws.$stored[chunk.id]
+//@   ensures chunk.idCalculated && (old(chunk.idCalculated) ==> chunk.id == old(chunk.id)) && (!old(chunk.idCalculated) ==> chunk.id == H(bytes(old(chunk.data))))
+//@   ensures forall i ChunkID :: old(s.ws.$stored[i]) ==> s.ws.$stored[i]
+
+//@ func readChunkFromFile
+//@   prop C06
+//@   nochecks make
+//@   ensures err == nil ==> r0 != nil && r0.idCalculated && r0.id == c.ID && H(plain(r0)) == c.ID && len(r0.data) > 0
+
+//@ func ChopFile
+//@   prop C06 C07
+//@   requires n >= 1
+//@   ghost@entry $fed = 0
+//@   loop 2: invariant $fed == $i
+//@   assert@send:in v == chunks[$i]
+//@   ghost@loop2.iterend $fed = $i + 1
+//@   ensures @C07,C06 r0 == nil ==> $fed == len(chunks)
+//@   lit 1: ghost@entry $done = false
+//@   lit 1: assert@loop1.iterend $first ==> s.ws.$stored[c.ID]
+//@   lit 1: ghost@loop1.exit $done = true
+//@   lit 1: ensures r0 == nil ==> $done
+
+//@ func Copy
+//@   prop C06 C07
+//@   requires n >= 1
+//@   ghost@entry $fed = 0
+//@   loop 2: invariant $fed == $i
+//@   assert@send:in v == ids[$i]
+//@   ghost@loop2.iterend $fed = $i + 1
+//@   ensures r0 == nil ==> $fed == len(ids)
+//@   lit 1: ghost@entry $done = false
+//@   lit 1: assert@loop1.iterend dst.$stored[id]
+//@   lit 1: ghost@loop1.exit $done = true
+//@   lit 1: ensures r0 == nil ==> $done
